@@ -179,6 +179,8 @@ func (in *interp) intrinsic(fr *frame, name string, fn *ssa.Function, args []val
 			p.recordFailure("write", tag+":"+w.Kind, w.Site, w.Stack, p.modelNow())
 		}
 		return nil
+	case "verifQuery":
+		return in.call(fr, 0, args[0], nil)
 	case "verifWriteCount":
 		return len(in.writes)
 	case "verifPermuteMaps":
